@@ -120,6 +120,7 @@ type Case struct {
 //
 //	quick: T1 = L ∪ array[L] ∪ map[K,L] (keys × values pairwise-reduced: all 14 keys × 6 representative
 //	       values ∪ all values × {string,uint32,guid}) ∪ depth-2 shapes over a reduced leaf set.
+//	both:  arrays nested 3 to 6 deep and map/array alternations down to depth 5 over {int32, string}.
 //	thorough: all 14 keys × all leaves at depth 1, depth 2 over 4 keys × all leaves, depth 3 over a reduced set.
 func (s *Support) Shapes(thorough bool) []*Type {
 	var out []*Type
@@ -190,6 +191,20 @@ func (s *Support) Shapes(thorough bool) []*Type {
 		add(M("float32", A(l)))
 		add(M("float64", M("float32", l)))
 		add(A(M("float64", A(l))))
+	}
+	// deep nestings (both tiers): the emitters name loop variables, lengths and temporaries by nesting depth, and start at
+	// a different depth in each context; depths 3 to 6 of arrays, and maps alternating with arrays down to depth 5
+	for _, ln := range []string{"int32", "string"} {
+		l := s.Leaf(ln)
+		t := A(A(l))
+		for d := 3; d <= 6; d++ {
+			t = A(t)
+			add(t)
+		}
+		add(M("string", A(A(l))))
+		add(A(M("uint32", A(l))))
+		add(M("uint32", M("string", M("uint32", l))))
+		add(A(M("string", A(M("uint32", A(l))))))
 	}
 	if thorough {
 		// depth 3 over a reduced leaf set × keys {string,uint32}
